@@ -812,7 +812,9 @@ class Quaternion(Vector):
         if parity:
             q[...,j] *= -1.
 
-        q *= np.sign(q[...,0])[...,np.newaxis]
+        # Make the scalar component non-negative. np.sign() would return zero
+        # for a rotation by pi and erase the quaternion.
+        q *= np.where(q[...,0] < 0., -1., 1.)[...,np.newaxis]
 
         return Quaternion(q, Qube.or_(ai._mask_, aj._mask_, ak._mask_))
 
